@@ -69,4 +69,28 @@ Section ShcTie.
     destruct g as [k t nn n1 n2]. cbn in HT. subst t. cbn -[set_score_new new2current accept xreal_of_draw]. rewrite HP.
     cbn -[set_score_new new2current accept]. destruct (accept p um ue); cbn -[set_score_new new2current]; reflexivity.
   Qed.
+  (* C19 for the generated acceptance step: after it, the tracked current pair is either the pair just evaluated (proposal, its score) or the
+     previous current pair -- nothing else; the tracked best pair is untouched *)
+  Theorem source_transition_grounded (g g' : g_shc) (s : score) :
+    sle s (t_score_cur (sh_trk g)) = true -> g_SHC_evaluate g s = Ok g' ->
+    ((t_pos_cur (sh_trk g') = t_pos_new (sh_trk g) /\ t_score_cur (sh_trk g') = s) \/
+     (t_pos_cur (sh_trk g') = t_pos_cur (sh_trk g) /\ t_score_cur (sh_trk g') = t_score_cur (sh_trk g))) /\
+    t_pos_best (sh_trk g') = t_pos_best (sh_trk g) /\ t_score_best (sh_trk g') = t_score_best (sh_trk g).
+  Proof.
+    intros HS E. destruct g as [k t nn n1 n2]. cbn [sh_trk] in *.
+    assert (U : g_SHC_evaluate (mkGShc k t nn n1 n2) s =
+                match t with
+                | d :: DF um ue :: t2 => g_SHC_evaluate (mkGShc k t nn n1 n2) s
+                | _ => Err OutOfTape
+                end).
+    { destruct t as [|d [|[z| um ue | | |] t2]]; try reflexivity;
+        unfold g_SHC_evaluate; cbn beta; cbn [sh_trk]; rewrite HS;
+        unfold g_SHC_transition, sh_track_new_score, g_SHC_transition_body, sh_p_accept, g_SHC_consider, g_PT_considered_transitions, g_SHC_consider_body, sh_accept;
+        cbn -[set_score_new new2current accept xreal_of_draw]; try reflexivity;
+        (assert (X : exists p, xreal_of_draw d = Ok p) by (destruct d; eexists; reflexivity)); destruct X as [p Hp]; rewrite Hp; reflexivity. }
+    rewrite U in E. destruct t as [|d [|[z| um ue | | |] t2]]; try discriminate.
+    assert (X : exists p, xreal_of_draw d = Ok p) by (destruct d; eexists; reflexivity). destruct X as [p Hp].
+    rewrite (source_transition_spec (mkGShc k (d :: DF um ue :: t2) nn n1 n2) s d um ue t2 p eq_refl Hp HS) in E. inversion E; subst g'. clear E.
+    cbn [sh_trk]. unfold set_score_new, new2current. destruct (accept p um ue); destruct (is_finite s); destruct k; cbn; auto.
+  Qed.
 End ShcTie.
